@@ -1,7 +1,7 @@
 (* Dispatch.v -- one command in, one observation out.  The same function is
    extracted to OCaml (model driver) and can be evaluated inside Coq
    (extraction cross-check).  Commands mirror harness/src/bin/impl_driver.rs. *)
-From MsiModel Require Import Base Sexp Timestamp Language ExprCmd ColumnCmd.
+From MsiModel Require Import Base Sexp Timestamp Language ExprCmd ColumnCmd CodePage.
 Open Scope string_scope.
 
 Record state := { st_dummy : unit }.
@@ -12,14 +12,34 @@ Definition pure_cmd (name : string) (args : list sx) : option sx :=
   | "time_from", [SI t] => Some (SI (from_time t))
   | "time_to", [SI k] => Some (SI (to_time k))
   | "time_rt", [SI t] => Some (SI (to_time (from_time t)))
+  | "cp_from_id", [SI i] => Some (sx_opt (fun c => sx_N (cp_id c)) (cp_from_id i))
+  | "cp_encode", [SI i; s] =>
+      match cp_from_id i, as_str s with
+      | Some c, Some s' => Some (match cp_encode c s' with Some b => sx_str b | None => SL [SY "any"] end)
+      | _, _ => None
+      end
+  | "cp_decode", [SI i; b] =>
+      match cp_from_id i, as_str b with
+      | Some c, Some b' => Some (match cp_decode c b' with Some s => sx_str s | None => SL [SY "any"] end)
+      | _, _ => None
+      end
   | "lang_from_tag", [t] => option_map (fun t => sx_N (from_tag t)) (as_str t)
   | "lang_tag", [c] => option_map (fun c => sx_str (tag_of c)) (as_N c)
   | _, _ => None
   end.
 
+(* commands whose name starts with "x_" are judged directly against the property
+   on the implementation's side; the model has no opinion *)
+Definition is_x (name : string) : bool :=
+  match name with
+  | String a (String b _) => (N.eqb (Ascii.N_of_ascii a) 120 && N.eqb (Ascii.N_of_ascii b) 95)%bool
+  | _ => false
+  end.
+
 Definition dispatch (st : state) (c : sx) : state * sx :=
   match c with
   | SL (SY name :: args) =>
+      if is_x name then (st, SL [SY "any"]) else
       match pure_cmd name args with
       | Some o => (st, o)
       | None =>
